@@ -390,6 +390,10 @@ def run_case(case, rec=None, count=True):
             if why:
                 raise Violation("%s:set=%s:readback" % (K, prop),
                                 "%s: reading is %r (%s; equivalence %s)" % (where, norm(raw), why, row.eq))
+            if row.default is not None and value == T.decode(row.default[0]) and row.default[1](obj, chain):
+                raise Violation("%s:set=%s:default-explicit-left" % (K, prop),
+                                "%s: the assigned value is the attribute's default, yet the explicit "
+                                "attribute is still present in the XML" % where)
         # -- documented couplings
         expects = row.expect(ev, before) if row.expect is not None else {}
         for name in sorted(expects):
@@ -448,8 +452,10 @@ def jobs(tier):
     nshard = 16
     for s in range(nshard):
         mine = decks[s::nshard]
+        # quick: each kind on at most one deck per shard (<= 16 corpus objects per kind), the decks
+        # visited in an order rotated by shard; thorough: every matching (deck, kind) pair
         js.append({"mode": "corpus", "decks": mine, "n": 24 if tier == "thorough" else 2,
-                   "max_kinds": 999 if tier == "thorough" else 6})
+                   "per_kind": 999 if tier == "thorough" else 1})
     return js
 
 
@@ -469,15 +475,15 @@ def run_job(job, seed, tier, rec, known):
 
         from vlib import corpus
 
+        used = {}
         for di, deck in enumerate(job["decks"]):
             try:
                 prs = Presentation(corpus.path(deck))
             except Exception:
                 rec.cls("corpus:deck-unreadable")
                 continue
-            used = 0
             for ki, kind in enumerate(T.kinds()):
-                if kind.locate is None or used >= job["max_kinds"]:
+                if kind.locate is None or used.get(kind.name, 0) >= job["per_kind"]:
                     continue
                 try:
                     path = kind.locate(prs)
@@ -494,7 +500,7 @@ def run_job(job, seed, tier, rec, known):
                 except Exception:
                     rec.cls("corpus:not-applicable:" + kind.name)
                     continue
-                used += 1
+                used[kind.name] = used.get(kind.name, 0) + 1
                 rec.cls("corpus:kind:" + kind.name)
                 rec.extra.setdefault("corpus_objects", []).append("%s@%s" % (kind.name, os.path.basename(deck)))
                 strat = case_strategy(kind, None, deck, path)
